@@ -282,6 +282,8 @@ def run(ctx):
     ce.instance('play(): recorded outputs extracted from the recording fetched for this id', roles.play.qualname, ok, detail=why)
     if not ok:
         res.add(Finding('C03', 'C03.e', 'R-PROV', roles.play.file, roles.play.qualname, roles.play.node.lineno, 'recorded outputs source', why))
+    from . import common as _r7
+    _r7.import_clauses(ctx, res, 'C01', ['C01.g'], 'C03', 'C03.p', 'R-AGREE', 'the copy through which recorded outputs are read returns an equal value', floor=1)
     return res
 
 
